@@ -161,6 +161,20 @@ def check_asdict(tree, what, bad):
         r = ps[0].end[1]
         ok = (isinstance(r, tuple) and r[:1] == ('DICTCOMP',) and len(r) == 4 and r[3][2] == FIELDS
               and r[1] == ('ITEM', r[3][1]) and r[2] == ('CALL', ('VAR', 'getattr'), SELF, ('ITEM', r[3][1])))
+        if not ok and isinstance(r, tuple) and r[0] == 'OBJ':
+            # the same dictionary built by an explicit loop over self._fields
+            p = ps[0]
+            made = [e for e in p.events('assign') if e[2] == r[1]]
+            loops = [s for s in p.steps if s[0] == 'LOOP']
+            ok = (len(made) == 1 and made[0][3] in (('DICT',), ('CALL', ('VAR', 'dict'))) and len(loops) == 1
+                  and isinstance(loops[0][1], ast.For) and P.Enumerator().val(loops[0][1].iter, p.env) == FIELDS
+                  and len(loops[0][2]) == 1 and loops[0][2][0].end[0] == 'continue')
+            if ok:
+                body = [s for s in loops[0][2][0].steps if s[0] == 'E' and s[1] != 'assign']
+                ok = len(body) == 1 and body[0][1] == 'substore' and body[0][2] == ('SUB', r, ITEM) \
+                    and body[0][3] == ('CALL', ('VAR', 'getattr'), SELF, ITEM)
+            others = [s for s in p.steps if s[0] == 'E' and s[1] != 'assign']
+            ok = ok and not others
     if not ok:
         bad('C14-asdict', f'{what}: _asdict is not {{f: getattr(self, f) for f in self._fields}} '
                           f'(fields in declaration order)')
@@ -265,15 +279,24 @@ def check_node_classes(tree, what, bad):
         if not base_init:
             bad('C14-field-tables', f'{what}: {name}.__init__ does not initialise ParsedObject (metadata, hash cache)')
         # repr: name followed by the fields in order, each with !r
-        rets = [x for x in ast.walk(rp) if isinstance(x, ast.Return)]
+        rps = P.Enumerator().function(rp)
         ok = False
-        if len(rets) == 1 and isinstance(rets[0].value, ast.JoinedStr):
-            vals = rets[0].value.values
-            attrs = [ast.unparse(v.value) for v in vals if isinstance(v, ast.FormattedValue)]
-            convs = [v.conversion for v in vals if isinstance(v, ast.FormattedValue)]
-            lit = ''.join(v.value for v in vals if isinstance(v, ast.Constant))
-            ok = attrs == [f'self.{f}' for f in fields] and all(c == ord('r') for c in convs) \
-                and lit.startswith(name + '(') and lit.endswith(')')
+        if len(rps) == 1 and rps[0].end[0] == 'return':
+            parts = P.render_parts(rps[0].end[1])
+            if parts is not None:
+                fm = [x for x in parts if x[0] == 'fmt']
+                # literal text between the rendered fields
+                segs, cur = [], ''
+                for x in parts:
+                    if x[0] == 'lit':
+                        cur += x[1]
+                    else:
+                        segs.append(cur)
+                        cur = ''
+                segs.append(cur)
+                ok = [x[1] for x in fm] == [('ATTR', SELF, f) for f in fields] and all(x[2] == 'r' for x in fm) \
+                    and segs[0].strip() == name + '(' and segs[-1].strip() == ')' \
+                    and all(s.strip() == ',' for s in segs[1:-1])
         if not ok:
             bad('C14-field-tables', f'{what}: {name}.__repr__ does not render {name}(<fields in _fields order, !r>): '
                                     f'eval(repr(x)) would not rebuild an equal object')
